@@ -11,7 +11,9 @@ import (
 	"hash"
 	"hash/crc32"
 	"math/rand"
+	"runtime"
 	"sort"
+	"strings"
 	"sync"
 	"sync/atomic"
 	"time"
@@ -160,6 +162,7 @@ type scenario struct {
 	col    *collector
 	packs  map[*pack.TextPack]*packSpec
 	nondet bool
+	worker bool // direct mode with the client's background worker running (as GetOneWayTcpClient starts it)
 
 	mu       sync.Mutex
 	evs      []evRec
@@ -171,6 +174,7 @@ type scenario struct {
 	connOK    int32 // successful dials
 	connected int32 // 1 while the client holds a connection (hook view)
 	dialFails int   // failed dials so far
+	dials     int   // Connect calls that found no connection so far
 	curID     int   // pack of the send in progress (last Built)
 	lastLen   int
 	accum     int64
@@ -227,6 +231,22 @@ func (sc *scenario) specOf(p pack.Pack) *packSpec {
 	return nil
 }
 
+// fromWorker reports whether the hook was called from the client's background worker (process()).
+func fromWorker() bool {
+	var pcs [24]uintptr
+	n := runtime.Callers(3, pcs[:])
+	fr := runtime.CallersFrames(pcs[:n])
+	for {
+		f, more := fr.Next()
+		if strings.HasSuffix(f.Function, "(*OneWayTcpClient).process") {
+			return true
+		}
+		if !more {
+			return false
+		}
+	}
+}
+
 // hook is called by the client at its linearization points (under the send lock in direct mode).
 func (sc *scenario) hook(name string, args ...interface{}) {
 	sc.mu.Lock()
@@ -243,9 +263,14 @@ func (sc *scenario) hook(name string, args ...interface{}) {
 		sc.holder = sname(ps.sender)
 		sc.add(t, t, core.Ev{"ev": "Locked", "s": sc.holder, "id": ps.id})
 		w = sc.watch[fmt.Sprintf("locked:%d", ps.id)]
+		delete(sc.watch, fmt.Sprintf("locked:%d", ps.id))
 	case "unlock":
 		ps := sc.specOf(args[0].(pack.Pack))
 		sc.add(t, t, core.Ev{"ev": "Unlock", "s": sname(ps.sender), "id": ps.id})
+	case "dial":
+		// no event: the state has not changed yet; a gate here holds a dialler between its test and its assignment
+		sc.dials++
+		g = sc.gates[fmt.Sprintf("dial:%d", sc.dials)]
 	case "built":
 		ps := sc.specOf(args[0].(*wnet.TcpSend).Pack)
 		flen := len(args[1].(*wio.DataOutputX).ToByteArray())
@@ -268,7 +293,13 @@ func (sc *scenario) hook(name string, args ...interface{}) {
 			sc.dialFails++
 			g = sc.gates[fmt.Sprintf("dialfail:%d", sc.dialFails)]
 		}
-		sc.add(t, t, core.Ev{"ev": "Connect", "a": sc.actor(), "ok": ok})
+		a := sc.actor()
+		if sc.mode == "direct" && sc.worker && fromWorker() {
+			a = "W"
+			w = sc.watch["wconnect"]
+			delete(sc.watch, "wconnect")
+		}
+		sc.add(t, t, core.Ev{"ev": "Connect", "a": a, "ok": ok})
 	case "sent":
 		err := args[0] != nil
 		if !err {
@@ -419,6 +450,8 @@ type scConf struct {
 	qcap   int
 	cuts   map[int]cutSpec
 	nondet bool
+	worker bool   // direct mode: start the background worker too
+	arm    string // gate armed before the worker is started
 }
 
 func newScenario(gen string, cas int, r *rand.Rand, cf scConf) (*scenario, error) {
@@ -427,7 +460,7 @@ func newScenario(gen string, cas int, r *rand.Rand, cf scConf) (*scenario, error
 	if err != nil {
 		return nil, err
 	}
-	sc := &scenario{gen: gen, cas: cas, mode: cf.mode, qcap: cf.qcap, col: col, nondet: cf.nondet,
+	sc := &scenario{gen: gen, cas: cas, mode: cf.mode, qcap: cf.qcap, col: col, nondet: cf.nondet, worker: cf.worker,
 		packs: map[*pack.TextPack]*packSpec{}, gates: map[string]*gate{}, watch: map[string]chan struct{}{}}
 	col.dialed = func(i int) bool { return int(atomic.LoadInt32(&sc.connOK)) > i }
 	if err := col.up(); err != nil {
@@ -443,7 +476,10 @@ func newScenario(gen string, cas int, r *rand.Rand, cf scConf) (*scenario, error
 		opts = append(opts, oneway.WithUseQueue(), oneway.WithQueueSize(int32(cf.qcap)))
 	}
 	// the client must be registered before its worker can emit an event: build it unstarted first
-	if cf.mode == "worker" {
+	if cf.arm != "" {
+		sc.gates[cf.arm] = &gate{parked: make(chan struct{}), release: make(chan struct{})}
+	}
+	if cf.mode == "worker" || cf.worker {
 		// process() dials at once; register through a temporary hook-less window is not possible,
 		// so create unstarted, register, then start the worker ourselves through the same entry point
 		sc.cl = oneway.NewOneWayTcpClientForVerif(false, opts...)
@@ -485,7 +521,7 @@ func (sc *scenario) finish(c *core.Ctx, t *core.Trace, emit *sync.Mutex) {
 	// every connection the client established must have been picked up by the collector's accept loop before the
 	// listener is closed (a connection still in the accept queue is destroyed with the listener and leaves no record)
 	sc.quiesce()
-	if sc.mode == "worker" {
+	if sc.mode == "worker" || sc.worker {
 		sc.cl.Destroy() // cancels the worker; it may sit in its poll for a few seconds more, touching nothing
 		sc.mu.Lock()
 		sc.finished = true
